@@ -19,6 +19,7 @@ MCNP expression, for all sense assignments; invariance of the tree under all
 layouts of the layout family.'''
 import itertools
 import json
+import os
 import random
 import time
 
@@ -75,6 +76,7 @@ HEADER = ('From Coq Require Import List NArith ZArith Bool String Ascii.\n'
 
 CLS_NESTED = 'nested_complement_of_cellref'
 ALPHABET = '12-#(): .'
+ALPHABET3 = '123-#(): .'
 FP_P = 2147483647
 
 
@@ -607,6 +609,44 @@ def sweep_expr(res, ref, e, text, out, origin):
     return True
 
 
+class Rec:
+    '''picklable stand-in for common.Result inside worker processes'''
+
+    def __init__(self):
+        self.counts, self.violations, self.extra = {}, [], {}
+
+    def count(self, key, n=1):
+        self.counts[key] = self.counts.get(key, 0) + n
+
+    def violation(self, *args, **kwargs):
+        if len(self.violations) < 200:
+            self.violations.append((args, kwargs))
+
+
+def exhaustive_job(job):
+    '''one bucket of the exhaustive tie: implementation results of
+    prefix + s for every s over `alphabet` with len(s) in `lens`'''
+    alphabet, prefix, lens, _dom = job
+    rec, ref = Rec(), opaque_ref()
+    acc = total = n = 0
+    nontrivial = []
+    for k in lens:
+        for tup in itertools.product(alphabet, repeat=k):
+            text = prefix + ''.join(tup)
+            out = impl_get_ast(text)
+            n += 1
+            if out[0] == 'ok':
+                acc += 1
+            if out[0] == 'ok' or out[1] == 'EAttribute':
+                nontrivial.append(text)
+            rec.count('exhaustive:' + (out[0] if out[0] == 'ok' else out[1]))
+            total = (total + h_str(text) * h_res(out)) % FP_P
+            wellformed(rec, ref, text, out, 'exhaustive')
+    return {'fp': (acc, total), 'n': n, 'nontrivial': nontrivial,
+            'counts': rec.counts, 'violations': rec.violations,
+            'samples': rec.extra.get('accepted_not_wellformed_samples', [])}
+
+
 def wellformed(res, ref, text, out, origin):
     '''arbitrary text: when the independent reader (c11_refparse, written
     from the manual) finds an expression, the property is checked on it; a
@@ -626,8 +666,9 @@ def run(res, tier, seed, proofs_ok):
     quick = tier == 'quick'
     timings = {}
     t0 = time.time()
-    res.rule = ('exhaustive: every string of length <= L over "12-#(): ." '
-                '(L=5 quick, 6 thorough) by fingerprints; explicit cases: '
+    res.rule = ('exhaustive: every string of length <= L over "123-#(): ." '
+                '(L=5 quick, 6 thorough) and, thorough, every string of '
+                'length 7 over "12-#(): .", by fingerprints; explicit cases: '
                 'hand-written corpus, token soups (with +, two-digit numbers, '
                 'facets), every expression with <= 3 (quick) / 4 (thorough) '
                 'operands in 64 layouts (a sample of 16 / 8 of them for the largest size of the tier), random expressions (depth <= 5, '
@@ -671,53 +712,77 @@ def run(res, tier, seed, proofs_ok):
     timings['corpus'] = time.time() - t0
 
     # ---- 2. exhaustive parse tie by fingerprints -------------------------
+    # domain A: every string of length <= 5 (quick) / 6 (thorough) over
+    #   "123-#(): ." (10 characters), buckets = 2-character prefixes;
+    # domain B (thorough): every string of length exactly 7 over "12-#(): ."
+    #   (9 characters), buckets = 3-character prefixes.
+    # The implementation side is sharded over worker processes (fork).
     t0 = time.time()
     max_len = 5 if quick else 6
-    short = [''] + list(ALPHABET)
+    short = [''] + list(ALPHABET3)
     for text in short:
         out = impl_get_ast(text)
         explicit.add(text, out, 'exhaustive-short')
         res.seen(text, nontrivial=out[0] == 'ok')
-    prefixes = [a + b for a in ALPHABET for b in ALPHABET]
-    impl_fp, bucket_out = {}, {}
-    n_exh = len(short)
-    n_acc = 0
-    for pre in prefixes:
-        acc, total = 0, 0
-        for text in strings_upto(pre, max_len - 2):
-            out = impl_get_ast(text)
-            n_exh += 1
-            if out[0] == 'ok':
-                acc += 1
-            nontrivial = out[0] == 'ok' or out[1] == 'EAttribute'
-            res.seen(text, nontrivial=nontrivial)
-            res.count('exhaustive:' + (out[0] if out[0] == 'ok' else out[1]))
-            total = (total + h_str(text) * h_res(out)) % FP_P
-            wellformed(res, ref, text, out, 'exhaustive')
-        impl_fp[pre] = (acc, total)
-        n_acc += acc
+    jobs = [(ALPHABET3, a + b, list(range(max_len - 1)), 'A')
+            for a in ALPHABET3 for b in ALPHABET3]
+    if not quick:
+        jobs += [(ALPHABET, a + b + c, [4], 'B')
+                 for a in ALPHABET for b in ALPHABET for c in ALPHABET]
+    import multiprocessing
+    procs = max(1, min(8, (os.cpu_count() or 2) - 1))
+    with multiprocessing.get_context('fork').Pool(procs) as pool:
+        results = pool.map(exhaustive_job, jobs, chunksize=2)
+    n_exh = {'A': len(short), 'B': 0}
+    n_acc = {'A': 0, 'B': 0}
+    for job, r in zip(jobs, results):
+        dom = job[3]
+        n_exh[dom] += r['n']
+        n_acc[dom] += r['fp'][0]
+        res.evaluations += r['n'] - len(r['nontrivial'])
+        for text in r['nontrivial']:
+            res.seen(text)
+        for key, val in r['counts'].items():
+            res.count(key, val)
+        for args, kwargs in r['violations']:
+            res.violation(*args, **kwargs)
+        extra = res.extra.setdefault('accepted_not_wellformed_samples', [])
+        extra.extend(r['samples'][:max(0, 12 - len(extra))])
     timings['exhaustive-impl'] = time.time() - t0
     t0 = time.time()
-    fp_cases = [cpair(cstr(pre), cn(impl_fp[pre][0]), cn(impl_fp[pre][1]))
-                for pre in prefixes]
-    check = (f'(fun c : string * N * N => let \'(p, a, h) := c in '
-             f'let r := bucket_fp p {max_len - 2} in '
-             f'N.eqb (fst r) a && N.eqb (snd r) h)')
-    bad, errs = common.run_case_files('c11_fp', HEADER, 'string * N * N',
-                                      check, fp_cases, chunk=6)
-    res.obligation(f'tie:parse exhaustive ({n_exh} strings of length <= '
-                   f'{max_len} over {ALPHABET!r}, {n_acc} accepted; 81 '
-                   'buckets, accepted count and result fingerprint equal)',
-                   not bad and not errs,
-                   f'buckets differing: {[prefixes[i] for i in bad]} '
-                   f'{errs[:1]}')
+    for dom, what in (('A', f'length <= {max_len} over {ALPHABET3!r}'),
+                      ('B', f'length 7 over {ALPHABET!r}')):
+        djobs = [(job, r) for job, r in zip(jobs, results) if job[3] == dom]
+        if not djobs:
+            continue
+        fp_cases = [cpair(cstr(job[1]), cn(r['fp'][0]), cn(r['fp'][1]))
+                    for job, r in djobs]
+        model_fp = (f'bucket_fp alpha3 p {max_len - 2}' if dom == 'A'
+                    else 'bucket_fp_exact alpha p 4')
+        check = (f'(fun c : string * N * N => let \'(p, a, h) := c in '
+                 f'let r := {model_fp} in '
+                 f'N.eqb (fst r) a && N.eqb (snd r) h)')
+        bad, errs = common.run_case_files(
+            f'c11_fp{dom}', HEADER, 'string * N * N', check, fp_cases,
+            chunk=7 if dom == 'A' else 12)
+        res.obligation(f'tie:parse exhaustive {dom} ({n_exh[dom]} strings of '
+                       f'{what}, {n_acc[dom]} accepted; {len(djobs)} buckets, '
+                       'accepted count and result fingerprint equal)',
+                       not bad and not errs,
+                       f'buckets differing: {[djobs[i][0][1] for i in bad]} '
+                       f'{errs[:1]}')
+        for idx in bad[:3]:            # re-run the bucket case by case
+            alphabet, pre, lens, _ = djobs[idx][0]
+            for k in lens:
+                for tup in itertools.product(alphabet, repeat=k):
+                    text = pre + ''.join(tup)
+                    explicit.add(text, impl_get_ast(text),
+                                 'exhaustive-bucket')
     res.extra['exhaustive'] = True
-    res.extra['exhaustive_domain'] = (f'all {n_exh} strings of length <= '
-                                      f'{max_len} over {ALPHABET!r}')
-    for idx in bad[:3]:            # re-run the bucket case by case
-        pre = prefixes[idx]
-        for text in strings_upto(pre, max_len - 2):
-            explicit.add(text, impl_get_ast(text), 'exhaustive-bucket')
+    res.extra['exhaustive_domain'] = (
+        f'all {n_exh["A"]} strings of length <= {max_len} over {ALPHABET3!r}'
+        + ('' if quick else f' and all {n_exh["B"]} strings of length 7 over '
+                            f'{ALPHABET!r}'))
     timings['exhaustive-coq'] = time.time() - t0
 
     # ---- 3. token soups ---------------------------------------------------
